@@ -416,10 +416,48 @@ func c04NilItems(r *Run) {
 	}
 }
 
+// the head of a v-for, every string up to length 6 over {a b blank ( ) , "in" " in "} plus written-out spellings
+func c04Heads(r *Run) {
+	sigma := []string{"a", "b", " ", "(", ")", ",", "in", " in "}
+	max := 5
+	if r.Thorough() {
+		max = 6
+	}
+	var all []string
+	var gen func(p string, n int)
+	gen = func(p string, n int) {
+		all = append(all, p)
+		if n == 0 {
+			return
+		}
+		for _, c := range sigma {
+			gen(p+c, n-1)
+		}
+	}
+	gen("", max)
+	all = append(all, "item in items", "(item) in items", "( item ) in items", "(i, item) in items", "(i,item) in items", "( i , item )  in  items ", " x  in  xs.list[0] ",
+		"(a, b, c) in xs", "() in xs", "(,) in xs", "(a,) in xs", "(,b) in xs", "x in", "x in ", " in xs", "x of xs", "x\tin\txs", "x in y in z", "(x in xs", "x) in xs", "((a, b)) in xs", "(a, (b)) in xs", "index in in in")
+	for _, h := range all {
+		vars, coll, ok := vuego.VerifParseFor(h)
+		var obs Obs
+		if ok {
+			var vs []Obs
+			for _, v := range vars {
+				vs = append(vs, A(v))
+			}
+			obs = L(A("ok"), L(vs...), A(coll))
+		} else {
+			obs = L(A("error"))
+		}
+		r.Case("loop-head", "CHead "+coqBytes(h), obs, map[string]any{"head": h}, nil, strings.Contains(h, " in "))
+	}
+}
+
 func runC04(r *Run) {
 	c04StructRoot(r)
 	c04NilItems(r)
-	r.Imports = []string{"Base.Val", "Model.Stack", "Model.Loops"}
+	r.Imports = []string{"Base.Val", "Model.Stack", "Model.Loops", "Model.ForHead"}
+	c04Heads(r)
 	r.Rule("loop nests up to depth 3 over slices and arrays of every element kind ([]any, []int, []string, [2]string and [3]int including all-zero arrays, [][]any, []map, []*S1 with nil members, []S1), lengths 0..3, nil, missing and non-sequence collections, " +
 		"one- and two-variable forms, loop variables that do and do not shadow outer variables / root struct fields, per-item v-if, <template v-for>, followed or not by v-else (with whitespace or a comment in between); " +
 		"every instance and the sibling after each loop print names through {{ }}, through an expression ({{ n + '' }}) and through a bound attribute; non-trivial: a loop with >= 2 items, shadowing, or a v-else")
@@ -515,7 +553,7 @@ func runC04(r *Run) {
 		nontrivial := strings.Count(src, "v-for") >= 1 && (strings.Contains(src, "v-else") || strings.Contains(src, "in title") || strings.Contains(src, `"x in`) || strings.Contains(src, "title in") || len(obs.List) >= 4)
 		r.Count(fmt.Sprintf("root-struct:%v", g.struc))
 		r.Count(fmt.Sprintf("loops:%d", strings.Count(src, "v-for")))
-		coq := fmt.Sprintf("{| c_data := %s; c_tpl := %s |}", data.Coq(), c04Coq(tpl))
+		coq := fmt.Sprintf("CNest %s %s", data.Coq(), c04Coq(tpl))
 		r.Case("loops", coq, obs, map[string]any{"template": src, "data": data.Desc()}, map[string]string{"struct_root": fmt.Sprint(g.struc)}, nontrivial)
 	}
 }
